@@ -142,7 +142,7 @@ func main() {
 	}
 
 	// ---------------------------------------------------------------- case lists
-	nDet, nFree := 10000, 200
+	nDet, nFree := 7000, 140
 	if env.Thorough {
 		nDet, nFree = 10000, 500
 	}
